@@ -37,6 +37,14 @@ def lattice(tier, seed):
                 cells.append({"method": m, "t_eval": te, "shape": sh, "args": (n % 2 == 0), "max_step": (0.0625 if n % 3 == 0 else None),
                               "tol": (1e-8 if n % 2 else 1e-5), "atolf": (1.0 if n % 3 else 1e-3),      # atol = tol * atolf: distinct tolerances
                               "dense": bool(n % 4 == 1), "events": bool(n % 5 == 0)})
+    # a TERMINAL event at t = 1.3: the requested times before it are the result, nothing beyond it, the event reported once (finding f38)
+    for m in methods:
+        for te in tevals:
+            n += 1
+            if not thorough and (n + seed) % 2 and te is not None and len(te) != 5:
+                continue
+            cells.append({"method": m, "t_eval": te, "shape": ("vec2" if n % 2 else "mat22"), "args": (n % 3 == 0), "max_step": None, "tol": 1e-6, "atolf": 1.0,
+                          "dense": bool(n % 2), "events": True, "terminal": True})
     # backward spans through the facade (without t_eval, which it only accepts on forward spans): with and without step bounds
     for m in methods:
         for k, sh in enumerate(("vec2", "mat22")):
@@ -103,7 +111,11 @@ def cell_job(cell):
     if cell["events"] and cell["shape"] != "scalar0":
         def ev(t, y, **constants):
             return t - 1.3
+        if cell.get("terminal"):
+            ev.is_terminal = True
         evs = [ev]
+    term = bool(cell.get("terminal")) and evs is not None
+    TE = 1.3
     try:
         res = de.solve_ivp(f, span, y0, method=method, t_eval=cell["t_eval"], dense_output=cell["dense"], events=evs, args=args, **opts)
         out["ran"] = True
@@ -114,7 +126,12 @@ def cell_job(cell):
         out["yShapeOk"] = bool(y.shape == tuple(y0.shape) + (nt,))
         te = cell["t_eval"]
         out["hasTEval"] = te is not None
-        out["nTEval"] = 0 if te is None else len(te)
+        # with a terminal event the requested times BEFORE the event are the result (Facade.tla: Reached)
+        want = None if te is None else [x for x in sorted(te) if not term or x < TE]
+        out["nTEval"] = 0 if te is None else len(want)
+        out["beyondEvent"] = bool(term and any(float(x) > TE + 1e-9 for x in t))
+        out["nEvents"] = len(res.t_events)
+        out["wantEvents"] = -1 if not term else (1 if (te is None or max(te) > TE) else 0)      # the run meets the event iff it goes beyond it
         out["startsAtInitialCondition"] = True
         if te is None and out["yShapeOk"]:
             out["startsAtInitialCondition"] = bool(num.frac(t[0]) == Fraction(span[0]) and np.array_equal(y[..., 0], y0))
@@ -126,10 +143,11 @@ def cell_job(cell):
                 idx = [i for i in range(len(st)) if num.frac(st[i]) == num.frac(t[k])]
                 pair = pair and any(np.array_equal(sy[i], y[..., k]) for i in idx)
         out["columnsPair"] = bool(pair)
-        out["tGaps"] = [] if te is None else [num.gap_units(a, b, [b], np.float64) for a, b in zip(t, sorted(te))] if len(t) == len(te) else []
+        out["tGaps"] = [] if te is None else ([num.gap_units(a, b, [b], np.float64) for a, b in zip(t, want)] if len(t) == len(want) else [num.CAP] * (len(want) + 1))
         out["sortedNondecreasing"] = bool(np.all(np.diff(t) >= 0)) if not cell.get("backward") else bool(np.all(np.diff(t) <= 0))
         # without t_eval and without a terminal event the run covers the span
-        out["endUnits"] = num.gap_units(t[-1], span[1], [span[1], span[0]], np.float64) if (te is None and nt > 0) else 0
+        goal = TE if term else span[1]
+        out["endUnits"] = num.gap_units(t[-1], goal, [goal, span[0]], np.float64) if (te is None and nt > 0) else 0
         # steps of the underlying system against max_step
         steps = np.abs(np.diff(np.asarray(sysm.t)))
         ms = cell["max_step"]
@@ -155,9 +173,11 @@ def cell_job(cell):
         else:
             for tt in sorted(te):
                 o.integrate(t=tt, callback=cbs, events=evs)
+                if term and o.integration_status.startswith("Integration terminated"):
+                    break          # driving the object by hand one stops at the terminal event
                 ot.append(o[-1].t)
                 oy.append(o[-1].y)
-            same = bool(np.array_equal(np.asarray(ot), t) and np.array_equal(np.stack(oy, axis=-1), y))
+            same = bool(np.array_equal(np.asarray(ot), t) and (np.array_equal(np.stack(oy, axis=-1), y) if oy else y.shape[-1] == 0))
         out["objectApiIdentical"] = same
         # args order: swapping the two arguments must change the result (i.e. they are bound by position, not both to one name)
         out["argsBoundInOrder"] = True
@@ -192,11 +212,13 @@ def check(run, replay=None):
                 "points) x state shape ((), (1,), (2,), (2,2)) x args x max_step x tolerance x dense x events; non-trivial = cell with t_eval or max_step or "
                 "args; distinct by cell")
     run.mc("Facade", workers=4)
+    if run.tier == "thorough":
+        core.model_check("Facade", "Facade_devCarriesOn", expect_violation="ReturnsExactlyTheRequestedTimesSorted")      # the facade before repair 37
     cells = lattice(run.tier, run.seed)
     obs = core.pool_map(cell_job, cells)
     defaults = {"ran": False, "tShapeOk": True, "yShapeOk": True, "startsAtInitialCondition": True, "columnsPair": True, "hasTEval": False, "nTEval": 0, "tGaps": [],
                 "sortedNondecreasing": True, "endUnits": 0, "solTolUnits": -1, "argsBoundInOrder": True, "maxStepUnits": 0, "fieldsOfUnderlyingSystem": True,
-                "objectApiIdentical": True, "scipyTolUnits": -1}
+                "objectApiIdentical": True, "scipyTolUnits": -1, "beyondEvent": False, "nEvents": 0, "wantEvents": -1}
     payload = []
     for k, o in enumerate(obs):
         o["id"] = k
